@@ -387,7 +387,7 @@ def t1_equiv(ctx, P, R, timeout_ms=60000):
               ("objective equal on the feasible set", [fP, z3.Or(oP.re.to_z3() != oR.re.to_z3(), oP.im.to_z3() != 0 if oP.im.t else z3.BoolVal(False))])]
     ok = True
     for name, goal in checks:
-        r, m = ctx.check(goal, timeout_ms=timeout_ms)
+        r, m = ctx.check(goal, timeout_ms=timeout_ms, cross=True)
         res["queries"] += 1
         if r != "unsat":
             ok = False
